@@ -1,7 +1,7 @@
 #!/bin/sh
 # usage: ./seed_test.sh <seed-dir-name> <property> [--only regex] : apply seeded/<name>/patch.diff to /repo, run the check, undo
 name=$1; prop=$2; shift; shift
-git -C /repo apply /verif/seeded/$name/patch.diff || exit 3
+git -C /repo apply $( [ -f /verif/seeded/$name/patch_rebased.diff ] && echo /verif/seeded/$name/patch_rebased.diff || echo /verif/seeded/$name/patch.diff ) || exit 3
 ./check $prop "$@" > .work/seed_$name.out 2>&1
 rc=$?
 git -C /repo checkout -- .
